@@ -36,6 +36,16 @@ def main(argv):
     ap.add_argument("--digest", action="store_true")
     ap.add_argument("--no-evidence", action="store_true")
     a = ap.parse_args(argv[1:])
+    if a.replay:
+        a.replay = os.path.abspath(a.replay)
+    # run inside an empty scratch directory: file I/O of the code under test that bypasses the simulated
+    # medium (a change that opens files through another API) lands there, is noticed and removed
+    import atexit
+    import shutil
+    import tempfile
+    cwd = tempfile.mkdtemp(prefix="verif-cwd-")
+    os.chdir(cwd)
+    atexit.register(lambda: (os.chdir("/"), shutil.rmtree(cwd, ignore_errors=True)))
     prop = load_prop(cmd)
     if a.replay:
         return core.replay(prop, a.replay)
@@ -59,6 +69,9 @@ def main(argv):
                 print("INFRA: " + e)
             return 2
         return 0
+    stray = sorted(os.listdir(cwd))
+    if stray:
+        total["infra"].append("the code under test created real files outside the simulated medium: %s" % stray[:5])
     write_ev = not a.no_evidence and os.path.realpath(core.REPO) == "/repo"
     rc = core.finish(prop, a.tier, seed, total, wall, a.workers, write_evidence=write_ev)
     print("%s: %d runs (%d evaluations, %d distinct non-trivial) in %.1fs; faults fired: %s; exit %d"
